@@ -477,6 +477,38 @@ def f72(x):
     return x
 
 
+class Registry:
+    """Handlers by key; the repr does not depend on addresses."""
+
+    def __init__(self, **handlers):
+        self._handlers = dict(handlers)
+
+    def __repr__(self):
+        return "Registry(%d)" % len(self._handlers)
+
+    def __getitem__(self, key):
+        return self._handlers[key]
+
+    def get(self, key):
+        return self._handlers.get(key)
+
+    def kinds(self):
+        return [type(v) for v in self._handlers.values()]
+
+
+_REG = Registry(a=helper, b=abs)
+
+
+@icontract.require(lambda k, reg: reg.get(k)(-3) > 0 and reg[k] is not None and type(k) is int, enabled=True)
+def f73(k, reg):
+    return k
+
+
+@icontract.require(lambda k, reg: len([reg[x] for x in (k,)]) > 1 and (found := reg.get(k)) is None, enabled=True)
+def f74(k, reg):
+    return k
+
+
 def _long_string():
     return "".join(chr(ord("a") + (i * 7) % 26) for i in range(300))
 
@@ -555,5 +587,7 @@ CASES = [
     {"id": "c70", "fn": "f70", "args": [], "kwargs": dict([("x", -1)] + [("k%02d" % i, i) for i in range(40)])},
     {"id": "c71", "fn": "f71", "args": [], "kwargs": {"x": 6000}, "cond_text": "at_most"},
     {"id": "c72", "fn": "f72", "args": [], "kwargs": {"x": 9}, "cond_text": "at_most"},
+    {"id": "c73", "fn": "f73", "args": [], "kwargs": {"k": "a", "reg": _REG}, "hidden_exprs": ["reg.get(k)", "reg[k]", "type(k)", "reg.get", "reg.get(k)(-3)"][:3]},
+    {"id": "c74", "fn": "f74", "args": [], "kwargs": {"k": "b", "reg": _REG}, "hidden_exprs": ["reg[x]", "found", "reg.get(k)"]},
     {"id": "c45", "fn": "f45", "args": [], "kwargs": {"x": 123456789012345678901234567890, "helper_fn": helper}, "a_repr": SMALL, "hidden": ["helper_fn"]},
 ]
